@@ -399,11 +399,13 @@ def declared_script_section(ctx):
     from ufo2ft.featureWriters.kernFeatureWriter2 import KernFeatureWriter as KernFeatureWriter2
     from ufo2ft.featureWriters import MarkFeatureWriter, GdefFeatureWriter, CursFeatureWriter
     tri = [[(Fr(0), Fr(0), "line"), (Fr(50), Fr(0), "line"), (Fr(50), Fr(50), "line")]]
-    EXTRA = [("grek", [("alpha", 0x3B1), ("beta", 0x3B2)]), ("cyrl", [("a-cy", 0x430), ("be-cy", 0x431)]), ("hebr", [("alef-hb", 0x5D0), ("bet-hb", 0x5D1)])]
-    for i in range(ctx.budget(6, 12)):
-        lib = ["ufoLib2", "defcon"][i % 2]
-        wname, wcls = [("kernFeatureWriter", KernFeatureWriter), ("kernFeatureWriter2", KernFeatureWriter2)][(i // 2) % 2]
-        tag, letters = EXTRA[(i // 4) % 3] if i >= 4 else EXTRA[i % 3]
+    # (dev2, khmr: scripts that shapers kern through 'dist' -- the common kerning reaches them there, F47)
+    EXTRA = [("grek", [("alpha", 0x3B1), ("beta", 0x3B2)]), ("cyrl", [("a-cy", 0x430), ("be-cy", 0x431)]), ("hebr", [("alef-hb", 0x5D0), ("bet-hb", 0x5D1)]),
+             ("dev2", [("ka-deva", 0x915), ("kha-deva", 0x916)]), ("khmr", [("ka-khmer", 0x1780), ("kha-khmer", 0x1781)])]
+    for i in range(ctx.budget(2 * len(EXTRA), 4 * len(EXTRA))):
+        lib = ["ufoLib2", "defcon"][(i + i // (2 * len(EXTRA))) % 2]
+        wname, wcls = [("kernFeatureWriter", KernFeatureWriter), ("kernFeatureWriter2", KernFeatureWriter2)][(i // len(EXTRA)) % 2]
+        tag, letters = EXTRA[i % len(EXTRA)]
         glyphs = [{"name": n, "unicodes": [u], "width": 500, "contours": tri, "components": [], "anchors": [("top", Fr(250), Fr(600))] if a else []}
                   for n, u, a in [("A", 0x41, True), ("V", 0x56, False), ("period", 0x2E, False), ("quotesingle", 0x27, False), ("one", 0x31, False)]
                   + [(n, u, True) for n, u in letters]]
